@@ -373,7 +373,7 @@ pub fn builtin_avg(arr: Vec<f64>, onEmpty: Option<Thunk<Val>>) -> Result<Val> {
 #[builtin]
 pub fn builtin_remove_at(arr: ArrValue, at: i32) -> Result<ArrValue> {
 	let newArrLeft = arr.clone().slice(None, Some(at), None);
-	let newArrRight = arr.slice(Some(at + 1), None, None);
+	let newArrRight = arr.slice(Some(at.saturating_add(1)), None, None);
 
 	Ok(ArrValue::extended(newArrLeft, newArrRight))
 }
